@@ -25,6 +25,14 @@ CLAIMED = {
    text="For every (layout, order) the four resolvers of the library are asked about the same (file, name) / (fixture, dependency) and must denote the definition layer R selects; TLC checks RepairedViewsAgree on the model; disagreements must match listed findings exactly as predicted.",
    note="Library-level resolvers; the LSP handlers are thin projections of them.",
    technique="TLA+ case table (TLC) + replay with cross-resolver agreement oracle"),
+ "C06": dict(level=MC, ref="DESIGN.md section 4 C06",
+   text="TLC visits every history of full-text versions (incl. unparsable, moved, renamed, removed, re-sent) up to the bound and checks HistoryIndependent / MirrorAlways / NoDangling on the model and RepairedHistoryIndependent on the repaired design; every history is executed on a long-lived real database and on a fresh twin built from the latest valid contents and all answers plus projected maps are compared.",
+   note="3 files x 5-6 versions, histories of length <= 3 (quick) / 4 (thorough); positional queries inside a currently unparsable document are not compared.",
+   technique="TLA+ state machine over histories (TLC exhaustive) + replay on long-lived vs fresh twin"),
+ "C07": dict(level=MC, ref="DESIGN.md section 4 C07",
+   text="TLC visits every interleaving of edits, cached queries, closes and evictions up to the bound, proves WarmEqualsColdRepaired on the repaired design; each history ending in a query runs on a real long-lived database and on a cold twin that received only the edits (files on disk).",
+   note="3 files on disk, 4 versions each incl. mutually importing modules; <= 4/5 events with <= 3 non-edit events; eviction emulated per victim through the pub maps.",
+   technique="TLA+ state machine with cache variables (TLC exhaustive) + warm/cold twin replay"),
  "C08": dict(level=MC, ref="DESIGN.md section 4 C08",
    text="For every layout the observable snapshot is computed on the real library under every registration order of the defining files and compared; TLC proves order independence of the repaired model (RepairedEqualsR under all orders).",
    note="Schedule effect = per-file analysis order (atomicity is C09's subject); <= 3/4 definers, all permutations.",
